@@ -108,7 +108,7 @@ Definition finalize_failed (w : world) (t : N) : world :=
 Definition fail_new_run (w : world) (t : N) (changed : list N) : world :=
   let w := rehash_failed w changed in
   let w := finalize_failed w t in
-  if nonempty changed then set_draining w true else w.
+  if nonempty changed then set_draining w (drain_for_changes_gen || draining w) else w.
 
 (* Executor._reset_step_to_pending *)
 Definition apply_reset (x : xworld) (w : world) : xworld :=
